@@ -710,7 +710,6 @@ theorem stringLoop_sat (kind : TK) (hk : ∀ v, ValOK kind v) (N : Nat) :
     · rename_i r heq
       have hl : s.rest.length = r.length + 1 := by rw [heq]; rfl
       have hs1 : Inv N (s.adv 1) := hs.adv (by omega)
-      simp only
       split
       · rename_i k hk'
         obtain ⟨k1, k2, _⟩ := escapeLen_some hk'
@@ -724,7 +723,6 @@ theorem stringLoop_sat (kind : TK) (hk : ∀ v, ValOK kind v) (N : Nat) :
     · rename_i r heq
       have hl : s.rest.length = r.length + 1 := by rw [heq]; rfl
       have hs1 : Inv N (s.adv 1) := hs.adv (by omega)
-      simp only
       split
       · cases hu : unescape body.reverse with
         | ok v =>
@@ -737,7 +735,7 @@ theorem stringLoop_sat (kind : TK) (hk : ∀ v, ValOK kind v) (N : Nat) :
         | exc nm => exact absurd hu (unescape_no_exc _ _)
       · refine ⟨hs1.emit (hk _), ?_⟩
         simp only [emit_rest, adv_rest_length]; omega
-    · rename_i c r heq _ _
+    · rename_i c r _ _ heq
       have hl : s.rest.length = r.length + 1 := by rw [heq]; rfl
       have hs1 : Inv N (s.adv 1) := hs.adv (by omega)
       refine (stringLoop_sat kind hk N n _ esc _ hs1 (by simp only [adv_rest_length]; omega)).mono
@@ -870,6 +868,255 @@ theorem postfixLoop_sat (N : Nat) : ∀ (n : Nat) (s : St), Inv N s → s.rest.l
 
 theorem acceptPostfixOps_spec (N : Nat) : Spec N acceptPostfixOps RLe :=
   fun s hs => postfixLoop_sat N _ s hs (Nat.lt_succ_self _)
+
+/-! ### terminals -/
+
+theorem keywordKind_ok (v w : Text) : ValOK (keywordKind v) w := by
+  unfold keywordKind
+  repeat' split
+  all_goals trivial
+
+theorem scanIdent_spec (N : Nat) : Spec N scanIdent RLe := by
+  intro s hs
+  unfold scanIdent
+  cases h : mIdentifier s.rest with
+  | none => exact ⟨hs, Nat.le_refl _⟩
+  | some n =>
+    obtain ⟨_, h2⟩ := mIdentifier_some h
+    refine ⟨(hs.adv h2).emit (keywordKind_ok _ _), ?_⟩
+    show ((s.adv n).emit _ _).rest.length ≤ s.rest.length
+    simp only [emit_rest, adv_rest_length]; omega
+
+theorem optInteger_spec (N : Nat) : Spec N optInteger RLe := by
+  intro s hs
+  unfold optInteger
+  refine (scanEmit_spec scanOK_integer N).bind hs (fun b s1 hs1 ⟨hl1, _⟩ => ?_)
+  cases b
+  · ite_clean; exact ⟨hs1, hl1⟩
+  · ite_clean; exact (triv_spec N).final hs1 hl1
+
+theorem scanOrError_spec {m : Text → Option Nat} {kind : TK} {k : Nat} (hm : ScanOK m kind k)
+    (N : Nat) (e : EK) : Spec N (scanOrError m kind e) RLe := by
+  intro s hs
+  unfold scanOrError
+  refine (scanEmit_spec hm N).bind hs (fun b s1 hs1 ⟨hl1, _⟩ => ?_)
+  cases b
+  · ite_clean; exact error_sat hs1 _ _
+  · ite_clean; exact ⟨hs1, hl1⟩
+
+theorem scanOK_dots (kind : TK) (hv : ∀ v, ValOK kind v) : ScanOK (mLit sDOTS) kind 1 :=
+  scanOK_lit sDOTS kind hv (by decide)
+
+theorem peekTail_spec (N : Nat) : Spec N peekTail RLe := by
+  intro s hs
+  unfold peekTail
+  refine (triv_spec N).bind hs (fun _ s1 hs1 (hl1 : s1.rest.length ≤ s.rest.length) => ?_)
+  refine (optChar_spec N 91 .lbracket trivial).bind hs1 (fun b s2 hs2 ⟨hl2, _⟩ => ?_)
+  cases b
+  · ite_clean; exact ⟨hs2, by show s2.rest.length ≤ s.rest.length; omega⟩
+  · ite_clean
+    refine (triv_spec N).bind hs2 (fun _ s3 hs3 (hl3 : s3.rest.length ≤ s2.rest.length) => ?_)
+    refine (optInteger_spec N).bind hs3 (fun _ s4 hs4 (hl4 : s4.rest.length ≤ s3.rest.length) => ?_)
+    refine (scanOrError_spec (scanOK_dots .rangeOp (fun _ => trivial)) N _).bind hs4
+      (fun _ s5 hs5 (hl5 : s5.rest.length ≤ s4.rest.length) => ?_)
+    refine (triv_spec N).bind hs5 (fun _ s6 hs6 (hl6 : s6.rest.length ≤ s5.rest.length) => ?_)
+    refine (optInteger_spec N).bind hs6 (fun _ s7 hs7 (hl7 : s7.rest.length ≤ s6.rest.length) => ?_)
+    refine (expect_spec N 93 .rbracket _ trivial).bind hs7
+      (fun _ s8 hs8 (hl8 : s8.rest.length + 1 ≤ s7.rest.length) => ?_)
+    exact ⟨hs8, by show s8.rest.length ≤ s.rest.length; omega⟩
+
+theorem charRange_spec (N : Nat) : Spec N charRange RLe := by
+  intro s hs
+  unfold charRange
+  refine (scanEmit_spec scanOK_char N).bind hs (fun b s1 hs1 ⟨hl1, _⟩ => ?_)
+  cases b
+  · ite_clean; exact ⟨hs1, hl1⟩
+  · ite_clean
+    refine (triv_spec N).bind hs1 (fun _ s2 hs2 (hl2 : s2.rest.length ≤ s1.rest.length) => ?_)
+    refine (scanOrError_spec (scanOK_dots .rangeOp (fun _ => trivial)) N _).bind hs2
+      (fun _ s3 hs3 (hl3 : s3.rest.length ≤ s2.rest.length) => ?_)
+    refine (triv_spec N).bind hs3 (fun _ s4 hs4 (hl4 : s4.rest.length ≤ s3.rest.length) => ?_)
+    refine (scanOrError_spec scanOK_char N _).bind hs4
+      (fun _ s5 hs5 (hl5 : s5.rest.length ≤ s4.rest.length) => ?_)
+    exact ⟨hs5, by show s5.rest.length ≤ s.rest.length; omega⟩
+
+/-- the hypothesis on the recursive call `self.accept_expression`: it behaves on every state
+    with fewer than `L` characters left -/
+def RecOK (N L : Nat) (rec : M Unit) : Prop :=
+  ∀ s, Inv N s → s.rest.length < L →
+    (rec s).Sat N (fun _ s' => Inv N s' ∧ s'.rest.length ≤ s.rest.length)
+
+theorem acceptTerminal_sat {N L : Nat} {rec : M Unit} (hrec : RecOK N L rec) {s : St}
+    (hs : Inv N s) (hL : s.rest.length ≤ L) :
+    (acceptTerminal rec s).Sat N (fun _ s' => Inv N s' ∧ s'.rest.length ≤ s.rest.length) := by
+  unfold acceptTerminal
+  refine (scanEmit_spec (scanOK_lit sPUSH_LITERAL .pushLiteral (fun _ => trivial)
+    (k := 1) (by decide)) N).bind hs (fun b s1 hs1 ⟨hl1, _⟩ => ?_)
+  cases b
+  · ite_clean
+    refine (scanEmit_spec (scanOK_lit sPUSH .push (fun _ => trivial) (k := 1) (by decide)) N).bind
+      hs1 (fun b s2 hs2 ⟨hl2, hp2⟩ => ?_)
+    cases b
+    · ite_clean
+      refine (scanIdent_spec N).bind hs2 (fun k s3 hs3 (hl3 : s3.rest.length ≤ s2.rest.length) => ?_)
+      cases k with
+      | some kind =>
+        dsimp only
+        by_cases hk : kind = .peek
+        · rw [if_pos hk]; exact (peekTail_spec N).final hs3 (by omega)
+        · rw [if_neg hk]; exact ⟨hs3, by omega⟩
+      | none =>
+        dsimp only
+        refine (acceptString_spec N).bind hs3
+          (fun b s4 hs4 (hl4 : s4.rest.length ≤ s3.rest.length) => ?_)
+        cases b
+        · ite_clean
+          refine (acceptCIString_spec N).bind hs4
+            (fun b s5 hs5 (hl5 : s5.rest.length ≤ s4.rest.length) => ?_)
+          cases b
+          · ite_clean; exact (charRange_spec N).final hs5 (by omega)
+          · ite_clean; exact ⟨hs5, by omega⟩
+        · ite_clean; exact ⟨hs4, by omega⟩
+    · ite_clean
+      have hp2 := hp2 rfl
+      refine (triv_spec N).bind hs2 (fun _ s3 hs3 (hl3 : s3.rest.length ≤ s2.rest.length) => ?_)
+      refine (expect_spec N 40 .lparen _ trivial).bind hs3
+        (fun _ s4 hs4 (hl4 : s4.rest.length + 1 ≤ s3.rest.length) => ?_)
+      refine (triv_spec N).bind hs4 (fun _ s5 hs5 (hl5 : s5.rest.length ≤ s4.rest.length) => ?_)
+      refine SR.Sat.bind' (hrec s5 hs5 (by omega)) (fun _ s6 ⟨hs6, hl6⟩ => ?_)
+      refine (triv_spec N).bind hs6 (fun _ s7 hs7 (hl7 : s7.rest.length ≤ s6.rest.length) => ?_)
+      refine (expect_spec N 41 .rparen _ trivial).bind hs7
+        (fun _ s8 hs8 (hl8 : s8.rest.length + 1 ≤ s7.rest.length) => ?_)
+      exact ⟨hs8, by omega⟩
+  · ite_clean
+    refine (triv_spec N).bind hs1 (fun _ s3 hs3 (hl3 : s3.rest.length ≤ s1.rest.length) => ?_)
+    refine (expect_spec N 40 .lparen _ trivial).bind hs3
+      (fun _ s4 hs4 (hl4 : s4.rest.length + 1 ≤ s3.rest.length) => ?_)
+    refine (triv_spec N).bind hs4 (fun _ s5 hs5 (hl5 : s5.rest.length ≤ s4.rest.length) => ?_)
+    refine (acceptString_spec N).bind hs5 (fun _ s6 hs6 (hl6 : s6.rest.length ≤ s5.rest.length) => ?_)
+    refine (triv_spec N).bind hs6 (fun _ s7 hs7 (hl7 : s7.rest.length ≤ s6.rest.length) => ?_)
+    refine (expect_spec N 41 .rparen _ trivial).bind hs7
+      (fun _ s8 hs8 (hl8 : s8.rest.length + 1 ≤ s7.rest.length) => ?_)
+    exact ⟨hs8, by omega⟩
+
+/-! ### terms and expressions -/
+
+theorem acceptTag_spec (N : Nat) : Spec N acceptTag RLe := by
+  intro s hs
+  unfold acceptTag
+  refine (scanEmit_spec scanOK_tag N).bind hs (fun b s1 hs1 ⟨hl1, _⟩ => ?_)
+  cases b
+  · ite_clean; exact ⟨hs1, hl1⟩
+  · ite_clean
+    refine (triv_spec N).bind hs1 (fun _ s2 hs2 (hl2 : s2.rest.length ≤ s1.rest.length) => ?_)
+    refine (expect_spec N 61 .assignOp _ trivial).bind hs2
+      (fun _ s3 hs3 (hl3 : s3.rest.length + 1 ≤ s2.rest.length) => ?_)
+    exact (triv_spec N).final hs3 (by omega)
+
+theorem prefixLoop_sat (N : Nat) : ∀ (n : Nat) (s : St), Inv N s → s.rest.length < n →
+    (prefixLoop n s).Sat N (fun _ s' => Inv N s' ∧ s'.rest.length ≤ s.rest.length)
+  | 0, _, _, h => by omega
+  | n + 1, s, hs, h => by
+    rw [prefixLoop]
+    dsimp only
+    have one : ∀ (c : Nat) (kind : TK), ValOK kind [c] → s.peek = some c →
+        (prefixLoop n (skipTrivia ((s.adv 1).emit kind [c]))).Sat N
+          (fun _ s' => Inv N s' ∧ s'.rest.length ≤ s.rest.length) := by
+      intro c kind hv hp
+      have := peek_some hp
+      have hs1 : Inv N ((s.adv 1).emit kind [c]) := (hs.adv this).emit hv
+      have hs2 := skipTrivia_inv hs1
+      have hl2 := skipTrivia_len ((s.adv 1).emit kind [c])
+      simp only [emit_rest, adv_rest_length] at hl2
+      refine (prefixLoop_sat N n _ hs2 (by omega)).mono (fun _ s' h' => ⟨h'.1, ?_⟩)
+      have := h'.2
+      omega
+    by_cases h1 : s.peek = some 38
+    · rw [if_pos h1]; exact one 38 .posPred trivial h1
+    · rw [if_neg h1]
+      by_cases h2 : s.peek = some 33
+      · rw [if_pos h2]; exact one 33 .negPred trivial h2
+      · rw [if_neg h2]; exact ⟨hs, Nat.le_refl _⟩
+
+theorem prefixLoopTop_spec (N : Nat) : Spec N (fun s => prefixLoop (s.rest.length + 1) s) RLe :=
+  fun s hs => prefixLoop_sat N _ s hs (Nat.lt_succ_self _)
+
+theorem acceptTerm_sat {N L : Nat} {rec : M Unit} (hrec : RecOK N L rec) {s : St}
+    (hs : Inv N s) (hL : s.rest.length ≤ L) :
+    (acceptTerm rec s).Sat N (fun _ s' => Inv N s' ∧ s'.rest.length ≤ s.rest.length) := by
+  unfold acceptTerm
+  refine (acceptTag_spec N).bind hs (fun _ s1 hs1 (hl1 : s1.rest.length ≤ s.rest.length) => ?_)
+  refine (prefixLoopTop_spec N).bind hs1 (fun _ s2 hs2 (hl2 : s2.rest.length ≤ s1.rest.length) => ?_)
+  refine SR.Sat.bind' (acceptTerminal_sat hrec hs2 (by omega)) (fun b s3 ⟨hs3, hl3⟩ => ?_)
+  cases b
+  · ite_clean
+    refine (expect_spec N 40 .lparen _ trivial).bind hs3
+      (fun _ s4 hs4 (hl4 : s4.rest.length + 1 ≤ s3.rest.length) => ?_)
+    refine (triv_spec N).bind hs4 (fun _ s5 hs5 (hl5 : s5.rest.length ≤ s4.rest.length) => ?_)
+    refine SR.Sat.bind' (hrec s5 hs5 (by omega)) (fun _ s6 ⟨hs6, hl6⟩ => ?_)
+    refine (triv_spec N).bind hs6 (fun _ s7 hs7 (hl7 : s7.rest.length ≤ s6.rest.length) => ?_)
+    refine (expect_spec N 41 .rparen _ trivial).bind hs7
+      (fun _ s8 hs8 (hl8 : s8.rest.length + 1 ≤ s7.rest.length) => ?_)
+    exact (acceptPostfixOps_spec N).final hs8 (by omega)
+  · ite_clean
+    exact (acceptPostfixOps_spec N).final hs3 (by omega)
+
+theorem exprLoop_sat {N L : Nat} {rec : M Unit} (hrec : RecOK N L rec) :
+    ∀ (n : Nat) (s : St), Inv N s → s.rest.length ≤ L → s.rest.length < n →
+      (exprLoop rec n s).Sat N (fun _ s' => Inv N s' ∧ s'.rest.length ≤ s.rest.length)
+  | 0, _, _, _, h => by omega
+  | n + 1, s, hs, hL, h => by
+    rw [exprLoop]
+    refine (triv_spec N).bind hs (fun _ s1 hs1 (hl1 : s1.rest.length ≤ s.rest.length) => ?_)
+    have cont : ∀ s2, Inv N s2 → s2.rest.length + 1 ≤ s1.rest.length →
+        ((do triv; acceptTerm rec; exprLoop rec n : M Unit) s2).Sat N
+          (fun _ s' => Inv N s' ∧ s'.rest.length ≤ s.rest.length) := by
+      intro s2 hs2 hl2
+      refine (triv_spec N).bind hs2 (fun _ s3 hs3 (hl3 : s3.rest.length ≤ s2.rest.length) => ?_)
+      refine SR.Sat.bind' (acceptTerm_sat hrec hs3 (by omega)) (fun _ s4 ⟨hs4, hl4⟩ => ?_)
+      exact (exprLoop_sat hrec n s4 hs4 (by omega) (by omega)).mono
+        (fun _ s' h' => ⟨h'.1, by have := h'.2; omega⟩)
+    refine (optChar_spec N 126 .sequenceOp trivial).bind hs1 (fun b s2 hs2 ⟨hl2, hp2⟩ => ?_)
+    cases b
+    · ite_clean
+      refine (optChar_spec N 124 .choiceOp trivial).bind hs2 (fun b s3 hs3 ⟨hl3, hp3⟩ => ?_)
+      cases b
+      · ite_clean; exact ⟨hs3, by show s3.rest.length ≤ s.rest.length; omega⟩
+      · ite_clean
+        have := hp3 rfl
+        exact cont s3 hs3 (by omega)
+    · ite_clean
+      have := hp2 rfl
+      exact cont s2 hs2 (by omega)
+
+theorem leadingChoice_spec (N : Nat) : Spec N leadingChoice RLe := by
+  intro s hs
+  unfold leadingChoice
+  refine (optChar_spec N 124 .choiceOp trivial).bind hs (fun b s1 hs1 ⟨hl1, _⟩ => ?_)
+  cases b
+  · ite_clean; exact ⟨hs1, hl1⟩
+  · ite_clean; exact (triv_spec N).final hs1 hl1
+
+theorem exprStep_sat {N L : Nat} {rec : M Unit} (hrec : RecOK N L rec) {s : St}
+    (hs : Inv N s) (hL : s.rest.length ≤ L) :
+    (exprStep rec s).Sat N (fun _ s' => Inv N s' ∧ s'.rest.length ≤ s.rest.length) := by
+  unfold exprStep
+  refine (triv_spec N).bind hs (fun _ s1 hs1 (hl1 : s1.rest.length ≤ s.rest.length) => ?_)
+  refine (leadingChoice_spec N).bind hs1 (fun _ s2 hs2 (hl2 : s2.rest.length ≤ s1.rest.length) => ?_)
+  refine SR.Sat.bind' (acceptTerm_sat hrec hs2 (by omega)) (fun _ s3 ⟨hs3, hl3⟩ => ?_)
+  exact (exprLoop_sat hrec _ s3 hs3 (by omega) (Nat.lt_succ_self _)).mono
+    (fun _ s' h' => ⟨h'.1, by have := h'.2; omega⟩)
+
+/-- the depth fuel of `accept_expression` suffices: every nested call happens after at least
+    one more character was consumed -/
+theorem acceptExpression_ok (N : Nat) : ∀ fuel, RecOK N fuel (acceptExpression fuel)
+  | 0 => fun _ _ h => by omega
+  | fuel + 1 => fun _ hs h =>
+    exprStep_sat (acceptExpression_ok N fuel) hs (by omega)
+
+theorem acceptExpressionTop_spec (N : Nat) :
+    Spec N (fun s => acceptExpression (s.rest.length + 1) s) RLe :=
+  fun s hs => acceptExpression_ok N _ s hs (Nat.lt_succ_self _)
 
 end Front
 end Pest
